@@ -214,7 +214,7 @@ def run(ctx):
             lines.append(B.coq_triangle_defs(f"t{i}", wt))
             lines.append(f"Definition b{i} : bytes := {B.coq_zlist(b)}.")
             lines.append(f"Definition e{i} : list Z := [" + ";".join(B.coq_z(c) for c in codes) + "].")
-            lines.append(f"Eval vm_compute in (if zlist_eqb (ser t{i}) b{i} && wfb t{i} && no_0x88_keyb t{i} "
+            lines.append(f"Eval vm_compute in (if zlist_eqb (ser_py t{i}) b{i} && wfb t{i} && no_0x88_keyb t{i} && coherentb t{i} "
                          f"then diff_indices 0 (cut_outcomes false t{i} b{i}) e{i} else [-1]).")
             idx.append((i, "plain"))
             if i % 6 == 0:
@@ -268,12 +268,14 @@ def run(ctx):
         ctx.violation("obligation", "T-bin obligations no longer hold; the cut-point oracle found no failing input",
                       {"tbin_diff": tbin_diff}, found_input=False)
     ctx.extra["tbin_diff"] = tbin_diff
+    if not ctx.quick:
+        ctx.coqchk("Bermuda.Props.C19")
     ctx.assumptions += [
         ".tribc: zlib/gzip not modelled; assumed: a non-empty truncated gzip file delivers a prefix of the plaintext "
         "and then raises, an empty file reads as the empty plaintext (monitored at every cut point of every 5th "
         "file); the check itself observes that EVERY truncation of every compressed file raises",
         "the final Triangle(cells) leaves a leading segment of a sorted triangle unchanged (observed on every cut point)",
-        "writer's metadata-change test modelled as structural equality",
+        "writer's metadata test = Python == at wire level (ser_py); coherentb evaluated on every generated file",
     ]
     try:
         for f in work.iterdir():
